@@ -262,7 +262,7 @@ func (g *GenCtx) Gen(d *Desc, v reflect.Value, ft string) {
 		}
 		v.Set(s)
 	case KDictE:
-		if g.ModelOnly || g.Rng.Intn(2) == 0 || g.depth > 8 {
+		if g.Rng.Intn(2) == 0 || g.depth > 8 {
 			g.cov("dict:empty")
 			return
 		}
@@ -453,6 +453,12 @@ func (g *GenCtx) genPrim(d *Desc, v reflect.Value) {
 		b := make([]byte, g.Rng.Intn(60))
 		g.Rng.Read(b)
 		v.SetString(string(b))
+	case "addrWc":
+		v.FieldByName("Workchain").SetInt(int64([]int{0, -1, 127, -128, g.Rng.Intn(256) - 128}[g.Rng.Intn(5)]))
+		a := v.FieldByName("Address")
+		for i := 0; i < a.Len(); i++ {
+			a.Index(i).SetUint(uint64(g.Rng.Intn(256)))
+		}
 	case "anycast":
 		g.genAnycast(v)
 	case "msgAddress":
